@@ -502,10 +502,62 @@ class Inliner:
         self.log.append((fi.qualname, target.qualname))
         return pre + body
 
+    def _hoist_nested_multi(self, fi, st: ast.stmt) -> List[ast.stmt]:
+        """A several-returns helper called INSIDE a larger expression (`sink(g(x_in=self._helper(a)))`) is first given a
+        statement of its own - `_helper_value = self._helper(a)` in front of the host statement - which the statement-level
+        path then absorbs.  Only unconditionally evaluated positions (not comprehension bodies, conditional arms, later and/or
+        operands) of expressions the statement evaluates once."""
+        if isinstance(st, (ast.Assign, ast.AnnAssign, ast.AugAssign, ast.Return, ast.Expr)):
+            roots = [("value", st.value)] if getattr(st, "value", None) is not None else []
+        elif isinstance(st, ast.If):
+            roots = [("test", st.test)]
+        elif isinstance(st, ast.For):
+            roots = [("iter", st.iter)]
+        else:
+            return []
+        pre: List[ast.stmt] = []
+
+        def walk(e: ast.AST, is_root: bool, scoped: bool) -> ast.AST:
+            if isinstance(e, (ast.ListComp, ast.SetComp, ast.DictComp, ast.GeneratorExp, ast.Lambda)):
+                return e
+            for fld, val in ast.iter_fields(e):
+                if isinstance(val, ast.AST):
+                    setattr(e, fld, walk(val, False, scoped or (isinstance(e, ast.IfExp) and fld in ("body", "orelse"))))
+                elif isinstance(val, list):
+                    late = isinstance(e, ast.BoolOp) and fld == "values"
+                    setattr(e, fld, [walk(v, False, scoped or (late and k_ > 0)) if isinstance(v, ast.AST) else v for k_, v in enumerate(val)])
+            stmt_level = is_root and isinstance(st, (ast.Assign, ast.AnnAssign, ast.Return, ast.Expr))
+            if isinstance(e, ast.Call) and not scoped and not stmt_level and self._callee(fi, e) is None:
+                r = self._callee(fi, e, multi=True)
+                if r is not None:
+                    self._tmp += 1
+                    nm = f"{r[0].name.strip('_')}_value__{self._tmp}"
+                    a = ast.Assign(targets=[ast.Name(id=nm, ctx=ast.Store())], value=e, lineno=st.lineno, col_offset=st.col_offset)
+                    for n_ in ast.walk(a):
+                        if not hasattr(n_, "lineno"):
+                            n_.lineno = st.lineno
+                            n_.col_offset = 0
+                    pre.append(a)
+                    return ast.copy_location(ast.Name(id=nm, ctx=ast.Load()), e)
+            return e
+
+        for fld, root in roots:
+            setattr(st, fld, walk(root, True, False))
+        return pre
+
     def _process_block(self, fi, stmts: List[ast.stmt]) -> List[ast.stmt]:
         out: List[ast.stmt] = []
-        for st in stmts:
+        work = list(stmts)
+        while work:
+            st = work.pop(0)
             st = self._lower_conditional(fi, st)
+            if not getattr(st, "_multi_hoisted", False):
+                pre_ = self._hoist_nested_multi(fi, st)
+                if pre_:
+                    st._multi_hoisted = True
+                    self.count += 1
+                    work = pre_ + [st] + work
+                    continue
             # recurse into compound statements first
             for fld in ("body", "orelse", "finalbody"):
                 if hasattr(st, fld) and isinstance(getattr(st, fld), list) and not isinstance(st, (ast.FunctionDef, ast.AsyncFunctionDef, ast.ClassDef)):
